@@ -11,11 +11,13 @@ Theorem c20_double_start : forall s oc, LInv s -> l_started s = true -> lstep tr
 Proof. exact double_start. Qed.
 
 Theorem c20_failed_start : forall s oc, oc <> SOk -> l_started s = false ->
-  fst (lstep true s (LStart oc)) = s /\ snd (lstep true s (LStart oc)) = RStartErr.
+  let s1 := fst (lstep true s (LStart oc)) in
+  l_loops s1 = l_loops s /\ l_started s1 = false /\ snd (lstep true s (LStart oc)) = RStartErr /\
+  snd (lstep true s1 (LStart SOk)) = RStartOk.
 Proof. exact failed_start. Qed.
 
 Theorem c20_stop_wait : forall s,
-  LInv s -> l_started s = true -> l_waitq s = [] ->
+  LInv s -> l_started s = true ->
   let s1 := fst (lstep true s LStop) in
   let '(s2, w) := lstep true s1 LWait in
   l_loops s1 = 0%nat /\ w = RWait WNil /\ snd (lstep true s2 (LStart SOk)) = RStartOk /\
@@ -24,11 +26,19 @@ Proof. exact stop_wait_restart. Qed.
 Print Assumptions c20_stop_wait.
 
 Theorem c20_failed_keepalive : forall s,
-  LInv s -> l_started s = true -> l_waitq s = [] ->
+  LInv s -> l_started s = true ->
   let s1 := fst (lstep true s LTickFail) in
   let '(s2, w) := lstep true s1 LWait in
   l_loops s1 = 0%nat /\ w = RWait WErr /\ snd (lstep true s2 (LStart SOk)) = RStartOk.
 Proof. exact failed_keepalive_restart. Qed.
+
+(* also after any number of runs that ended on a failing keep-alive and were never waited for *)
+Theorem c20_restart_after_uncollected_failures : forall n,
+  let s := lrun true l0 (failed_runs n ++ [LStart SOk]) in
+  let s1 := fst (lstep true s LStop) in
+  let '(s2, w) := lstep true s1 LWait in
+  l_started s = true /\ w = RWait WNil /\ snd (lstep true s2 (LStart SOk)) = RStartOk.
+Proof. exact restart_after_uncollected_failures. Qed.
 
 Theorem c20_cadence : forall ops,
   let s := lrun true l0 ops in snd (lstep true s LTick) = RTick (if l_started s then 1 else 0)%nat.
